@@ -1,7 +1,7 @@
 #!/bin/sh
 # tools/seed_sweep.sh "<ids>" "<seeds>" [tier]  - runs the checks under several VERIF_SEED values; prints one line per run.
 ids=${1:-"C01 C02 C03 C04 C05 C06 C07 C08 C11 C17"}; seeds=${2:-"1 2 3"}; tier=${3:-quick}
-cd "$(dirname "$0")/.."
+cd "$(dirname "$0")/.." && mkdir -p build
 for s in $seeds; do for i in $ids; do
   d=$(mktemp -d build/sweep.XXXXXX)
   VERIF_SEED=$s VERIF_EVIDENCE_DIR=$PWD/$d ./check $i --tier $tier > $d/out.txt 2>&1; rc=$?
